@@ -43,6 +43,8 @@ def features(deck):
         f.add('nested')
     if any(c['hastrcl'] and c['u'] for c in deck['cells']):
         f.add('filler_trcl')
+    if any(c.get('negu') for c in deck['cells']):
+        f.add('negative_u')
     return sorted(f)
 
 
@@ -62,6 +64,10 @@ def run(chk, decks, clauses, seed, optsets, npts=110, decorate=None, lo=-11, hi=
             d = adeck.renumber(d, *adeck.RENUMBERINGS[1 + (i // 3) % 3])
         if i % 4 == 2:
             d['plusspell'] = True        # '+3' is a valid MCNP number
+        if i % 5 == 3:
+            for c in d['cells']:         # U=-n: same universe, "not truncated by the container" hint
+                if c['u'] and not c.get('like'):
+                    c['negu'] = True
         if decorate:
             decorate(d, rng)
         d['pts'] = adeck.grid_points(rng, npts, lo, hi)
